@@ -1,6 +1,6 @@
 CONSTANTS
-  Family = "tmo"
-  Defects = {"TryNotDisabled"}
+  Family = "hop"
+  Defects = {"RewriteSkippedWhenMarked"}
   Big = FALSE
 SPECIFICATION Spec
 INVARIANTS HdrImplIsSem HdrLevelOrder OmittedAppends HdrVarResolved PathImplIsSem PrefixWins PathRuleSwapsWholePath HostImplIsSem RedirImplIsSem HopImplIsSem HopBothRewrite PfcImplIsSem TmoImplIsSem TryBelowGlobal
